@@ -38,7 +38,7 @@ func format(val proto.Value) string {
 	case proto.TypeUint32:
 		return strconv.FormatUint(uint64(val.Uint32()), 10)
 	case proto.TypeInt64:
-		return strconv.FormatInt(int64(val.Uint64()), 10)
+		return strconv.FormatInt(val.Int64(), 10)
 	case proto.TypeUint64:
 		return strconv.FormatUint(uint64(val.Uint64()), 10)
 	case proto.TypeFloat32:
